@@ -308,7 +308,10 @@ def gen_case(rng, size=None, features=None):
         fid += 1
     tgts = []
     for i in range(ntgt):
-        names[fid] = "t%d.x" % fid if rng.random() < 0.6 else "t%d" % fid
+        # (the first letter varies so that the name order — the order in which the queries visit files — is not the
+        # dependency order)
+        pre = rng.choice(["t", "t", "a", "z"])
+        names[fid] = "%s%d.x" % (pre, fid) if rng.random() < 0.6 else "%s%d" % (pre, fid)
         tgts.append(fid)
         fid += 1
     use_default = rng.random() < feats.get("default", 0.4)
